@@ -20,6 +20,7 @@ import Kap.Proofs.C05Bnd
 import Kap.Proofs.C05Term
 import Kap.Proofs.C05Part
 import Kap.Proofs.C05Typ
+import Kap.Proofs.C05Json
 import Kap.Spec.C05
 import Kap.Gen.C05
 namespace Kap.Props.C05
@@ -387,5 +388,41 @@ theorem getNode_switch_is_plain : Gen.getNodeOddCases = [] := by decide
 "chain", which every marshalled program contains — dereferenced nil. -/
 theorem oldGetNode_traps : getNode Gen.getNodeTags false "chain" = .trap ∧ getNode Gen.getNodeTags false "bogus" = .trap := by
   decide
+
+/-! ### JSON documents → AST → evaluation -/
+
+/-- No pointer / interface returning accessor of `JSONNode` (`Regex`, `Node`, `IDNode`, `RefNode`) answers
+`(nil, nil)` for a JSON null (extracted from tick/ast/json.go). -/
+theorem json_accessors_reject_null : Gen.jsonNullAccepting = [] := by decide
+
+/-- **decode ok → well-formed**: over the decoder as the source has it (flags from the extracted accessor
+shapes), every JSON document that decodes yields an AST without a nil node and without a nil regexp — for
+every document and every nesting depth. -/
+theorem json_decode_ok_wf (k : Nat) (j : JV) (n : ENode)
+    (h : decodeJ (Gen.jsonNullAccepting.contains "Regex") (Gen.jsonNullAccepting.contains "Node") k j = some n) :
+    n.wf = true := by
+  have e1 : Gen.jsonNullAccepting.contains "Regex" = false := by decide
+  have e2 : Gen.jsonNullAccepting.contains "Node" = false := by decide
+  rw [e1, e2] at h
+  exact decodeJ_wf k j n h
+
+/-- **no trap under well-formedness**: formatting / evaluating a well-formed decoded AST reaches no nil
+dereference (no method call on a nil `Node`, no `MatchString` on a nil regexp). -/
+theorem wf_ast_never_traps (n : ENode) (h : n.wf = true) : n.evalTraps = false := wf_no_trap n h
+
+/-- Counterexample for the CLASS (an accessor that accepts null): with `Regex` answering `(nil, nil)`,
+`{"typeOf":"binary","operator":"=~","left":{"typeOf":"reference"},"right":{"typeOf":"regex","regex":null}}`
+decodes, is not well-formed, and its evaluation dereferences the nil regexp. -/
+theorem null_accepting_regex_traps :
+    ∃ n, decodeJ true false 3
+      (.ocons "typeOf" (.str "binary") (.ocons "operator" (.str "=~")
+        (.ocons "left" (.ocons "typeOf" (.str "reference") .onil)
+        (.ocons "right" (.ocons "typeOf" (.str "regex") (.ocons "regex" .null .onil)) .onil)))) = some n ∧
+      n.wf = false ∧ n.evalTraps = true :=
+  ⟨.binary "=~" (.leaf "reference") (.regex none), by decide, by decide, by decide⟩
+
+example : decodeJ false false 3
+    (.ocons "typeOf" (.str "func") (.ocons "args" (.acons (.ocons "typeOf" (.str "star") .onil) .anil) .onil)) =
+    some (.func (.acons (.leaf "star") .anil)) := by decide
 
 end Kap.Props.C05
